@@ -469,7 +469,7 @@ fn migrate_case(ctx: &Ctx, rep: &mut Report, case_seed: u64, variant: u64, grid_
 			return
 		},
 		Err(pm) => {
-			rep.violation(format!("scenario=C20;failure=panic;site={};phase=build_source", panic_site(&pm)), format!("{} :: {}", pm, desc), replay);
+			crate::util::violation(rep, format!("scenario=C20;failure=panic;site={};phase=build_source", panic_site(&pm)), format!("{} :: {}", pm, desc), replay);
 			return
 		},
 	};
@@ -494,11 +494,11 @@ fn migrate_case(ctx: &Ctx, rep: &mut Report, case_seed: u64, variant: u64, grid_
 	match r {
 		Ok(Ok(())) => {},
 		Ok(Err(e)) => {
-			rep.violation(format!("{};failure=migrate_failed;error={}", sigbase, err_kind(&e)), format!("migrate returned {} :: {}", e, desc), replay);
+			crate::util::violation(rep, format!("{};failure=migrate_failed;error={}", sigbase, err_kind(&e)), format!("migrate returned {} :: {}", e, desc), replay);
 			return
 		},
 		Err(pm) => {
-			rep.violation(format!("{};failure=panic;site={}", sigbase, panic_site(&pm)), format!("{} :: {}", pm, desc), replay);
+			crate::util::violation(rep, format!("{};failure=panic;site={}", sigbase, panic_site(&pm)), format!("{} :: {}", pm, desc), replay);
 			return
 		},
 	}
@@ -701,7 +701,7 @@ fn migrate_case(ctx: &Ctx, rep: &mut Report, case_seed: u64, variant: u64, grid_
 	let mut seen = BTreeSet::new();
 	for (sig, detail) in violations {
 		if seen.insert(sig.clone()) {
-			rep.violation(sig, format!("{} :: {}", detail, desc), replay.clone());
+			crate::util::violation(rep, sig, format!("{} :: {}", detail, desc), replay.clone());
 		}
 	}
 }
@@ -730,8 +730,8 @@ pub fn run(ctx: &Ctx, rep: &mut Report) {
 		migrate_case(ctx, rep, case_seed, variant, &mut grid_seen);
 		ctx.checkpoint(rep);
 		i += 1;
-		if rep.get("violations_raw") >= 200 {
-			rep.notes.push(format!("shard {} stopped after 200 failing checks", ctx.shard));
+		if crate::util::distinct_failure_classes() >= 40 || rep.get("failing_checks") >= 3000 {
+			rep.notes.push(format!("shard {} stopped early: {} distinct failure classes, {} failing checks", ctx.shard, crate::util::distinct_failure_classes(), rep.get("failing_checks")));
 			break
 		}
 	}
